@@ -279,3 +279,44 @@ def run_nonbinding(args):
 
 def nonbinding_cases():
     return [(k, c, s, st) for k, c in NONBINDING for s in ("body", "def", "block") for st in (False, True)]
+
+
+# a name whose only read sits inside a nested function / lambda / comprehension still comes from the context, also
+# when the comprehension reuses the name as its loop variable (the outermost iterable is evaluated before binding)
+INNER_READ = [
+    ("function-body", "<%\ndef g():\n    return zz\n%>${g()[0]}"),
+    ("lambda-body", "<% f = lambda: zz %>${f()[0]}"),
+    ("comprehension-iterable-in-function", "<%\ndef g():\n    return [e for e in zz]\n%>${g()[0]}"),
+    ("own-variable-iterable-in-function", "<%\ndef g():\n    return [zz for zz in zz]\n%>${g()[0]}"),
+    ("own-variable-iterable-in-lambda", "<% f = lambda: [zz for zz in zz] %>${f()[0]}"),
+    ("own-variable-dict-comprehension", "<%\ndef g():\n    return {zz: 1 for zz in zz}\n%>${list(g())[0]}"),
+    ("own-variable-set-comprehension", "<%\ndef g():\n    return {zz for zz in zz}\n%>${list(g())[0]}"),
+    ("own-variable-generator", "<%\ndef g():\n    return list(zz for zz in zz)\n%>${g()[0]}"),
+    ("own-variable-lambda-in-expression", "${(lambda: [zz for zz in zz])()[0]}"),
+    ("own-variable-nested-function", "<%\ndef g():\n    def h():\n        return [zz for zz in zz]\n    return h()\n%>${g()[0]}"),
+    ("parameter-default", "<%\ndef g(p=zz):\n    return p\n%>${g()[0]}"),
+    ("lambda-default", "<% f = lambda p=zz: p %>${f()[0]}"),
+]
+
+
+def run_inner_read(args):
+    from mako.template import Template
+    kind, construct, site, strict = args
+    if site == "body":
+        src = construct
+    elif site == "def":
+        src = '<%def name="d()">' + construct + "</%def>${d()}"
+    else:
+        src = "<%block>" + construct + "</%block>"
+    try:
+        out = Template(src, strict_undefined=strict).render_unicode(zz=["ctx"])
+    except Exception as e:
+        out = "%s: %s" % (type(e).__name__, str(e)[:80])
+    if out.strip() == "ctx":
+        return None
+    return {"kind": kind, "site": site, "strict_undefined": strict, "template": src, "context": {"zz": ["ctx"]},
+            "expected": "ctx (the only read of the name is in an inner scope; it resolves to the context value)", "got": out.strip()[-120:]}
+
+
+def inner_read_cases():
+    return [(k, c, s, st) for k, c in INNER_READ for s in ("body", "def", "block") for st in (False, True)]
